@@ -147,6 +147,14 @@ func Explore(r *ev.Run, cfg Config) Result {
 		replayMode(cfg, f)
 		return Result{}
 	}
+	if cfg.MaxStates == 0 {
+		// default cap: a change that adds a hidden counter to the structure makes the concrete state
+		// space unbounded; the search then stops here with exhaustive:false instead of running away
+		cfg.MaxStates = 400000
+		if r.Thorough() {
+			cfg.MaxStates = 6000000
+		}
+	}
 	workers := runtime.NumCPU()
 	if cfg.Workers > 0 {
 		workers = cfg.Workers
